@@ -16,6 +16,7 @@ from sa.db import own_nodes, unparse
 from sa.effects import Effects
 from sa.flow import Forward
 from sa.pts import IMM, UNK
+from rules.shared import memo_readers, check_fresh_return, MemoFlow
 
 META = {
     "explanation": "Static ownership/effect analysis of selfies.bond_constraints: allocation-site points-to "
@@ -31,57 +32,6 @@ META = {
 }
 
 CONFIG_GETTERS = ["get_semantic_constraints", "get_preset_constraints", "get_semantic_robust_alphabet"]
-
-
-def memo_readers(ctx, eff, table_vars):
-    """lru-cached functions whose region loads a table variable; split into (plain, self_keyed)"""
-    plain, selfkeyed = [], []
-    for f in eff.lru_funcs():
-        reads = eff.module_var_reads(f)
-        if any(tv in reads for tv in table_vars):
-            (selfkeyed if f.is_method else plain).append(f)
-    return plain, selfkeyed
-
-
-def check_fresh_return(ctx, eff, rep, f, rule, what):
-    pt = ctx.pt
-    ret = pt.v(f.qual, "<ret>")
-    region = eff.region(f)
-    heap = [i for i in ret if isinstance(i, tuple)]
-    if not heap:
-        rep.ob(rule, True, f.node, f, construct="return of %s" % f.name, how="returns only immutable values")
-        return
-    for i in sorted(heap, key=str):
-        bad = None
-        if i[0] == "extparam":
-            continue
-        if i[0] != "alloc":
-            bad = "returns a non-allocated object %s" % (pt.describe(i),)
-        else:
-            scope = i[1]
-            if scope.startswith("mod:") or scope.startswith("default:"):
-                bad = "returns an object created at import time (%s): alias of retained state" % pt.describe(i)
-            elif scope not in region:
-                bad = "returns an object allocated outside this call (%s)" % pt.describe(i)
-            elif f.is_lru:
-                bad = "function is memoised with lru_cache and returns a mutable %s: every caller gets the " \
-                      "retained object itself (mutating it changes later results)" % pt.describe(i)
-            else:
-                # stored into retained state during the call?
-                for q in region:
-                    for r in pt.records(q):
-                        if i in r.values and any(eff.is_shared_target(t) for t in r.targets):
-                            bad = "returned object is also stored into retained state at %s (%s)" % (
-                                ctx.db.funcs[q].loc(r.node), r.detail)
-                # deep: anything reachable must be immutable or fresh too
-                if bad is None:
-                    for j in pt.reach({i}) - {i}:
-                        if j in eff.retained and j[0] == "alloc" and pt.objs[j].kind in ("list", "dict", "set", "deque", "inst"):
-                            bad = "returned object contains retained mutable %s" % pt.describe(j)
-        node = pt.objs[i].site[1] if i[0] == "alloc" and pt.objs[i].site else f.node
-        rep.ob(rule, bad is None, node, f, construct="%s returns %s" % (f.name, pt.objs[i].kind),
-               how="fresh allocation inside the call, not stored, not memoised" if bad is None else "",
-               witness=bad, key="%s/returns-%s" % (f.name, "alias" if bad else "fresh"), nontrivial=True)
 
 
 class AtomicFlow(Forward):
@@ -162,46 +112,6 @@ class AtomicFlow(Forward):
         if kind == "raise":
             self.raise_points += 1
             self._check(node, state, "explicit raise")
-
-
-class MemoFlow(Forward):
-    """state: frozenset of memo quals that still have to be cleared (pending after a table rebinding)"""
-
-    def __init__(self, ctx, eff, f, rep, memos, table_vars):
-        super().__init__(f.node)
-        self.ctx, self.eff, self.f, self.rep = ctx, eff, f, rep
-        self.memos = frozenset(m.qual for m in memos)
-        self.table_vars = table_vars
-        self.rebinds = {}
-        self.clears = {}
-        for r in ctx.pt.records(f.qual):
-            if r.op == "rebind-global" and any((t[1], t[2]) in table_vars for t in r.targets):
-                self.rebinds[id(r.node)] = r
-            if r.op == "memo-clear":
-                self.clears[id(r.node)] = r
-        self.exits = 0
-
-    def join(self, a, b):
-        return a | b
-
-    def simple(self, st, state):
-        new = set(state)
-        for n in ast.walk(st):
-            r = self.clears.get(id(n))
-            if r is not None:
-                new.discard(r.detail)
-        if id(st) in self.rebinds:
-            new |= self.memos
-        return frozenset(new)
-
-    def exit(self, kind, node, state):
-        if kind in ("return", "end"):
-            self.exits += 1
-            ok = not state
-            self.rep.ob("G6", ok, node, self.f, construct="normal exit of %s (%s)" % (self.f.name, kind),
-                        how="all table-reading memos cleared on every path from a rebinding: %s" % sorted(self.memos),
-                        witness=None if ok else "path from a table rebinding reaches this exit without cache_clear() of: %s"
-                        % ", ".join(sorted(state)), key="%s/exit-%s" % (self.f.name, kind), nontrivial=True)
 
 
 def run(ctx, rep):
